@@ -42,6 +42,12 @@ def meta_base(top):
     return repr(x)
   m = {}
   m["components"] = sorted(repr(c) for c in top.get_all_components())
+  # name-derived metadata of every named object: level, parent, host component (signals: top-level signal)
+  def lvl(o):
+    out = [repr(o), getattr(o._dsl, "level", None), repr(o.get_parent_object()) if o is not top else None]
+    if isinstance(o, Signal): out += [repr(o.get_host_component()), repr(o.get_top_level_signal())]
+    return tuple(map(str, out))
+  m["levels"] = sorted(lvl(o) for o in top.get_all_object_filter(lambda x: True))
   m["signals"] = sorted(repr(x) for x in top.get_all_object_filter(lambda x: isinstance(x, Signal)))
   m["nets"] = sorted((str(nm(w)) if w is not None else "None", sorted(str(nm(x)) for x in net))
                      for w, net in top.get_all_value_nets())
